@@ -42,6 +42,32 @@ claim(
     "DESIGN.md section 5 / C01",
 )
 
+claim(
+    "C03",
+    "model_checking",
+    "C-history + A-choice-tree",
+    "explicit enumeration of API call histories on the real samplers with the random stream scripted; invariant checked in every reached state",
+    "Every history of depth 3 (quick) / 4 (thorough) over {take_step, advance(1), advance(3)} for Metropolis/Gibbs/PCA/HMC/Ensemble x {free, box} x T in {1,2.5} x d in {1,2} "
+    "is executed on fresh real objects under a scripted generator, over all random outcomes within a deviation bound (2/3) so accept, auto-accept and reject-then-accept paths are taken; "
+    "after every call probs[k] == posterior(sample[k])/T for all k, lengths agree, mode() is a recorded row of maximal recorded probability, the caller's arrays are byte-identical. "
+    "Second harness: two samplers built from the same arrays, all 2^L interleavings of their steps; each must equal its solo run. The exchange clause is decided in C08's exchange evaluator.",
+    "fixed smooth posterior; 2-letter normal alphabet and 2 quantiles; deviation bound stated in evidence",
+    "DESIGN.md section 5 / C03",
+)
+claim(
+    "C08",
+    "model_checking",
+    "B-schedule + A-choice-tree",
+    "stateful BFS over all interleavings of the real parent/worker code over fake Process/Pipe/Event; choice-tree over pairings and accept/reject; conformance run on real multiprocessing",
+    "inference.mcmc.parallel's Process/Pipe/Event are replaced by fakes run as threads under a controller that owns every send/recv/poll/set/join; all interleavings of parent + N workers "
+    "(N<=3 quick, <=4 thorough; pipe capacity inf and 1) are explored for every command script up to length 2/3 over {take_steps(1), take_steps(2), swap, advance(5,2), return_chains}: no deadlock, "
+    "no worker death, every worker terminates after shutdown, exactly one final outcome per script, chains advanced by the requested steps; the same scripts are run on real multiprocessing and compared byte-for-byte. "
+    "swap(): every pairing and accept/reject outcome under the scripted generator: threshold = min(1,exp((1/Ti-1/Tj)(Lj-Li))), hand-over of position and re-tempered probability, untouched chains, counters; "
+    "tight_pairs/uniform_pairs for N=1..7 over all outcomes; advance(n, swap_interval) arithmetic on a grid.",
+    "scheduling points at IPC operations only (separate address spaces); OS-level pipe behaviour below Connection.send/recv is multiprocessing's contract; fork copy emulated by deepcopy",
+    "DESIGN.md section 5 / C08",
+)
+
 ALL = [f"C{i:02d}" for i in range(1, 21)]
 PENDING_REASON = "check under construction in this session (design in DESIGN.md section 5); not yet claimed"
 
